@@ -53,6 +53,8 @@ class F:
     __rxor__ = __xor__
 
     def __eq__(self, o):
+        if isinstance(o, OB):
+            return o.__eq__(self)
         return isinstance(o, F) and self.m == o.m and self.c == o.c
 
     def __hash__(self):
@@ -87,7 +89,14 @@ class OB:
     __rxor__ = __xor__
 
     def __eq__(self, o):
-        return False
+        # An opaque bit is a value the engine could not follow.  Asking whether it equals a form (or another opaque bit) has no
+        # answer: a rule that compares bits and meets one must fail as an ANALYSIS error, never conclude "different".
+        if isinstance(o, (F, OB)) and o is not self:
+            raise AnalysisError(f"a bit the analysis could not follow ({self.why or 'opaque'}) reached an equality comparison of a rule")
+        return o is self
+
+    def __ne__(self, o):
+        return not self.__eq__(o)
 
     def __hash__(self):
         return id(self)
@@ -860,7 +869,9 @@ class Interp:
         if missing:
             raise PathRaise("TypeError", f"{q} missing {missing}")
         frame = Frame(self, fi, env, bound_cls)
-        is_gen = _is_generator(fi.node)
+        is_gen = getattr(fi, "_is_gen", None)
+        if is_gen is None:
+            is_gen = fi._is_gen = _is_generator(fi.node)
         if is_gen:
             frame.yields = []
         self.depth += 1
